@@ -2,10 +2,15 @@
 (* String tables (string_table.rs).  Operational model of get_raw / get, the declarative
    statement of C15, and a UTF-8 validity predicate (RFC 3629 / Unicode table 3-7). *)
 EXTENDS Words
+LOCAL INSTANCE SequencesExt
 
 \* ---- operational: StringTable::get_raw (string_table.rs:15-30) ---------------
-RECURSIVE FirstNul(_, _)
-FirstNul(buf, p) == IF p > Len(buf) THEN 0 ELSE IF buf[p] = 0 THEN p ELSE FirstNul(buf, p + 1)
+\* position of the first NUL at or after position p, 0 if there is none
+\* (SelectInSubSeq is evaluated iteratively, so a 70 000-byte string costs 70 000 steps, not a deep recursion)
+IsNul(b) == b = 0
+FirstNul(buf, p) == IF p > Len(buf) THEN 0 ELSE SelectInSubSeq(buf, p, Len(buf), IsNul)
+RECURSIVE FirstNulRec(_, _)                  \* the same by recursion (reference; compared in MC_StrTab)
+FirstNulRec(buf, p) == IF p > Len(buf) THEN 0 ELSE IF buf[p] = 0 THEN p ELSE FirstNulRec(buf, p + 1)
 
 GetRaw(buf, offW) ==
     LET off == Val(offW)
@@ -17,22 +22,42 @@ GetRaw(buf, offW) ==
 
 \* ---- UTF-8 -------------------------------------------------------------------
 Cont(b) == b >= 128 /\ b <= 191
-RECURSIVE Utf8From(_, _)
-Utf8From(s, i) ==
-    IF i > Len(s) THEN TRUE
+\* validity of buf[lo..hi] (positions, 1-based, inclusive), stated on the table itself so that no
+\* copy of a long string is made at every step
+RECURSIVE Utf8In(_, _, _)
+Utf8In(s, i, hi) ==
+    IF i > hi THEN TRUE
     ELSE LET b == s[i]
-             N(k) == IF i + k <= Len(s) THEN s[i + k] ELSE 0
-         IN IF b <= 127 THEN Utf8From(s, i + 1)
-            ELSE IF b >= 194 /\ b <= 223 THEN Cont(N(1)) /\ Utf8From(s, i + 2)
-            ELSE IF b = 224 THEN N(1) >= 160 /\ N(1) <= 191 /\ Cont(N(2)) /\ Utf8From(s, i + 3)
+             N(k) == IF i + k <= hi THEN s[i + k] ELSE 0
+         IN IF b <= 127 THEN Utf8In(s, i + 1, hi)
+            ELSE IF b >= 194 /\ b <= 223 THEN Cont(N(1)) /\ Utf8In(s, i + 2, hi)
+            ELSE IF b = 224 THEN N(1) >= 160 /\ N(1) <= 191 /\ Cont(N(2)) /\ Utf8In(s, i + 3, hi)
             ELSE IF (b >= 225 /\ b <= 236) \/ b = 238 \/ b = 239
-                 THEN Cont(N(1)) /\ Cont(N(2)) /\ Utf8From(s, i + 3)
-            ELSE IF b = 237 THEN N(1) >= 128 /\ N(1) <= 159 /\ Cont(N(2)) /\ Utf8From(s, i + 3)
-            ELSE IF b = 240 THEN N(1) >= 144 /\ N(1) <= 191 /\ Cont(N(2)) /\ Cont(N(3)) /\ Utf8From(s, i + 4)
-            ELSE IF b >= 241 /\ b <= 243 THEN Cont(N(1)) /\ Cont(N(2)) /\ Cont(N(3)) /\ Utf8From(s, i + 4)
-            ELSE IF b = 244 THEN N(1) >= 128 /\ N(1) <= 143 /\ Cont(N(2)) /\ Cont(N(3)) /\ Utf8From(s, i + 4)
+                 THEN Cont(N(1)) /\ Cont(N(2)) /\ Utf8In(s, i + 3, hi)
+            ELSE IF b = 237 THEN N(1) >= 128 /\ N(1) <= 159 /\ Cont(N(2)) /\ Utf8In(s, i + 3, hi)
+            ELSE IF b = 240 THEN N(1) >= 144 /\ N(1) <= 191 /\ Cont(N(2)) /\ Cont(N(3)) /\ Utf8In(s, i + 4, hi)
+            ELSE IF b >= 241 /\ b <= 243 THEN Cont(N(1)) /\ Cont(N(2)) /\ Cont(N(3)) /\ Utf8In(s, i + 4, hi)
+            ELSE IF b = 244 THEN N(1) >= 128 /\ N(1) <= 143 /\ Cont(N(2)) /\ Cont(N(3)) /\ Utf8In(s, i + 4, hi)
             ELSE FALSE
-IsUtf8(s) == Utf8From(s, 1)
+IsUtf8Rec(s) == Utf8In(s, 1, Len(s))
+
+\* the same as a byte-at-a-time automaton (state: continuation bytes still owed and the range allowed
+\* for the next one; <<-1, 0, 0>> is the reject state), folded over the string iteratively
+Utf8Step(st, b) ==
+    IF st[1] = -1 THEN st
+    ELSE IF st[1] = 0
+         THEN IF b <= 127 THEN <<0, 0, 0>>
+              ELSE IF b >= 194 /\ b <= 223 THEN <<1, 128, 191>>
+              ELSE IF b = 224 THEN <<2, 160, 191>>
+              ELSE IF (b >= 225 /\ b <= 236) \/ b = 238 \/ b = 239 THEN <<2, 128, 191>>
+              ELSE IF b = 237 THEN <<2, 128, 159>>
+              ELSE IF b = 240 THEN <<3, 144, 191>>
+              ELSE IF b >= 241 /\ b <= 243 THEN <<3, 128, 191>>
+              ELSE IF b = 244 THEN <<3, 128, 143>>
+              ELSE <<-1, 0, 0>>
+         ELSE IF b >= st[2] /\ b <= st[3] THEN (IF st[1] = 1 THEN <<0, 0, 0>> ELSE <<st[1] - 1, 128, 191>>)
+              ELSE <<-1, 0, 0>>
+IsUtf8(s) == FoldLeft(Utf8Step, <<0, 0, 0>>, s)[1] = 0
 
 \* StringTable::get (string_table.rs:32-35)
 Get(buf, offW) ==
@@ -47,12 +72,12 @@ Get(buf, offW) ==
 DeclRaw(buf, offW, r) ==
     LET off == Val(offW)
         inside == off # Huge /\ off < Len(buf)
-        runs == IF inside THEN { n \in 0..(Len(buf) - off - 1) :
-                                   /\ \A j \in 1..n : buf[off + j] # 0
-                                   /\ buf[off + n + 1] = 0 }
-                ELSE {}
-    IN IF runs = {} THEN ~r.ok
-       ELSE r.ok /\ r.start = off /\ {r.len} = runs          \* the run is unique: it ends at the first NUL
+    IN IF r.ok
+       THEN /\ inside /\ r.start = off                       \* (stated per result so that it is linear in
+            /\ r.len \in 0..(Len(buf) - off - 1)             \*  the table size: the run is unique, it ends
+            /\ buf[off + r.len + 1] = 0                       \*  at the first NUL)
+            /\ \A j \in 1..r.len : buf[off + j] # 0
+       ELSE ~inside \/ \A p \in (off + 1)..Len(buf) : buf[p] # 0
 
 \* projection used in traces and cases: empty slices carry no position
 RangeJ(start, len) == IF len = 0 THEN <<0, 0>> ELSE <<start, len>>
